@@ -21,6 +21,13 @@ STD = [  # (keyword, values by VM kind)
 ]
 
 
+PRIV_CLASH = [
+    ('GEMS_IDEN_01', (0x0009, 0x0030), (0x0009, 0x3017), 'LT', 'private series desc', (0x0008, 0x103e), 'LO', 'std series desc'),
+    ('SIEMENS MR HEADER', (0x0019, 0x0030), (0x0019, 0x300d), 'CS', 'NONE', (0x0018, 0x9075), 'CS', 'DIRECTIONAL'),
+    ('SIEMENS CT VA0  ORMR', (0x0021, 0x0031), (0x0021, 0x3181), 'DS', '99.0', (0x0018, 0x0081), 'DS', '30.5'),
+]
+
+
 def gen_dataset(r, depth=0):
     import pydicom
     from pydicom.dataset import Dataset
@@ -52,6 +59,17 @@ def gen_dataset(r, depth=0):
                     if vr == 'SQ':
                         val = Sequence([gen_dataset(r, 2) for _ in range(r.randint(0, 2))])
                     ds.add_new((group, (slot << 8) | low), vr, val)
+            except Exception:
+                pass
+        # a private element whose dictionary name camel-cases to a standard keyword, next to (or
+        # without) that standard element: both must be kept, told apart by their tags
+        for creator, slot_tag, ptag, pvr, pval, stag, svr, sval in r.sample(PRIV_CLASH, r.choice([0, 0, 1, 1, 2, 3])):
+            try:
+                if slot_tag not in ds and ptag not in ds:
+                    ds.add_new(slot_tag, 'LO', creator)
+                    ds.add_new(ptag, pvr, pval)
+                    if r.random() < 0.8 and stag not in ds:
+                        ds.add_new(stag, svr, sval)
             except Exception:
                 pass
         if r.random() < 0.5:
